@@ -697,8 +697,14 @@ class Program:
         call = "%s(%s)" % (fn.name, ", ".join([str(self.main_tag)] + args))
         if self.wrapper:
             wname, items = self.wrapper
+            fsrc = fn.src().replace("\n", "\n    ")
+            if getattr(self, "letbound", False):
+                # the function under test is a named function expression bound by let / var and called through
+                # the binding (front/tailrec.c bind_tailrec descends into initialisers)
+                fsrc = "%s %sv = let %s" % (self.letbound, fn.name, fsrc)
+                call = "%sv(%s)" % (fn.name, ", ".join([str(self.main_tag)] + args))
             out.append("func %s(n : int, kk : int) -> int\n{\n    let arr0 = %s;\n    %s\n    %s;\n    %s\n}\n" % (
-                wname, ARR_SRC, "".join("let %s = %s;\n    " % (a, b) for a, b in items), fn.src().replace("\n", "\n    "), call))
+                wname, ARR_SRC, "".join("let %s = %s;\n    " % (a, b) for a, b in items), fsrc, call))
             for e in self.extra:
                 out.append(e.src() + "\n")
             if self.has_loop:
@@ -1036,4 +1042,12 @@ def family(seed, n_random):
     progs.append(g.mutual_program())
     for _ in range(n_random):
         progs.append(g.tail_program())
+    # every third nested tail program declares the function under test as a let- / var-bound function expression
+    k = 0
+    for p in progs:
+        if p.wrapper and p.kind == "tail":
+            k += 1
+            if k % 3 == 0:
+                p.letbound = "let" if k % 2 else "var"
+                p.shape_id += "|" + p.letbound + "-bound"
     return progs
